@@ -129,7 +129,12 @@ func genC11(r *Rng) (coq []string, ops []rpOp, fails []MonitorFailure, stat map[
 				if constant && len(after.Ys) >= 2 && d/ys[0] <= 3650 {
 					want := start + int64(math.Ceil(d/ys[0]))
 					if res.z < want-1 || res.z > want+1 {
-						fail("flat-share-prediction-off", fmt.Sprintf("constant share %v: predict(%v, %d) = %d, expected %d within one day (poly=%v degree=%d points=%d)", ys[0], d, start, res.z, want, poly, degree, len(after.Ys)))
+						sig := "flat-share-prediction-off"
+						if poly && degree == 3 && d/ys[0] > 1000 {
+							// known finding: the cubic fit in raw epoch-day coordinates, rounded to ten decimals, drifts on horizons beyond 1000 days
+							sig = "flat-share-prediction-off-cubic-horizon-over-1000-days"
+						}
+						fail(sig, fmt.Sprintf("constant share %v: predict(%v, %d) = %d, expected %d within one day (poly=%v degree=%d points=%d)", ys[0], d, start, res.z, want, poly, degree, len(after.Ys)))
 					}
 					stat["flat_share_predictions"]++
 				}
